@@ -61,6 +61,7 @@ type Op struct {
 	CtxBuf  int    `json:"cb,omitempty"`  // capacity of the context buffer (-1 none)
 	Stream  int    `json:"st,omitempty"`
 	Addr    int    `json:"addr,omitempty"` // Transport scenarios: target server
+	List    int    `json:"list,omitempty"` // Client scenarios: index into Plan.Lists
 	N       int    `json:"n,omitempty"`
 	Bad     string `json:"bad,omitempty"` // "method" unknown method, "args" undecodable args, "encode" unencodable request
 	Fault   *Fault `json:"fault,omitempty"`
@@ -106,6 +107,8 @@ type Plan struct {
 	Faults   []Fault        `json:"faults,omitempty"`
 	Streams  []StreamPlan   `json:"streams,omitempty"`
 	Params   map[string]int `json:"params,omitempty"`
+	Targets  []TargetPlan   `json:"targets,omitempty"` // Client scenarios
+	Lists    [][]int        `json:"lists,omitempty"`   // Client scenarios: target lists (index into Targets, -1 = empty string)
 }
 
 // ---------------------------------------------------------------------------
@@ -226,6 +229,7 @@ type World struct {
 	LiveAtEnd []simrt.GInfo
 	TearingDown bool
 	TS       *tState
+	CS       *cState
 	byID     map[uint64]*CallRec
 	opIdx    map[int]int
 	Arrivals map[int][]uint64 // client -> call ids in the order they arrived on its shared Done channel
